@@ -543,6 +543,31 @@ func F4(cfg Cfg, yield func(*Case)) {
 	}
 }
 
+// F4Fan yields tables in which ONE object id is the plain value of a run of adjacent refs whose length is swept
+// (1, 1+step, … up to n-10) so that the object lies in every possible number of ref blocks - in particular in
+// exactly 7 and exactly 8, where the obj record switches from the 3-bit count to an explicit one. The other refs
+// have unique values, two refs in the first and last block share a second id.
+func F4Fan(cfg Cfg, n, step int, yield func(*Case)) {
+	hs := cfg.HashSize()
+	shared, second := Oid("base", hs), Oid("other", hs)
+	for L := 1; L <= n-10; L += step {
+		var refs []refdb.Ref
+		for i := 0; i < n; i++ {
+			r := refdb.Ref{Name: fmt.Sprintf("refs/tags/v%04d", i), UpdateIndex: 5 + uint64(i%2), Kind: 1}
+			switch {
+			case i >= 5 && i < 5+L:
+				r.Value = shared
+			case i == 0 || i == n-1:
+				r.Value = second
+			default:
+				r.Value = Oid(fmt.Sprintf("uniq%d", i), hs)
+			}
+			refs = append(refs, r)
+		}
+		yield(&Case{Family: "F4", Cfg: cfg, Min: 5, Max: 6, Refs: refs, Note: fmt.Sprintf("fan,L=%d,n=%d", L, n)})
+	}
+}
+
 // F4Oids returns the object ids worth querying for a case: every id occurring, one absent id,
 // and one that shares the abbreviation with a present id but differs later.
 func F4Oids(c *Case) [][]byte {
